@@ -72,6 +72,8 @@ def check_module(res, c, T):
     if tuple(s2.loaded_sunsynth_version) != tuple(syn.sunsynth_version):
         res.violation(f"C02:synth-version:{T}", f"VERS {syn.sunsynth_version} loads as {s2.loaded_sunsynth_version}", desc)
     compare(res, T, "synth", S_syn, build.norm_module(snapshot.snap_module(s2.module, "synth"), "after"), desc)
+    if T in ("MetaModule", "Sampler") or c.index % 10 == 0:
+        workload.saves_into_positioned_streams(res, "C02", syn, desc)
     # (b) clone
     try:
         cl = m.clone()
@@ -423,6 +425,15 @@ def run_shard(spec_, res):
     if spec_["shard"] == 0:
         empty_synth(res)
     if spec_["shard"] == 1:
+        # MetaModules one of whose mapped embedded modules was taken out by hand (generator and oracle are C15's)
+        import random as _r5
+        from . import c15
+        from ..runner import Result
+        scratch = Result()
+        c15.deleted_targets(scratch, _r5.Random(spec_["seed"] + 5), 10)
+        res.count("metamodules_with_deleted_targets", scratch.counters.get("deleted_target_cases", 0))
+        for v in scratch.violations:
+            res.violation(v["key"].replace("C15:", "C02:", 1), v["what"], v.get("case"))
         big_payloads(res)
         pass
     else:
